@@ -165,9 +165,11 @@ func (fx *FuncExec) mergeStates(conds []*Term, sts []*State) *State {
 		var cs []*Term
 		var vs []Value
 		for i, s := range sts {
+			cs = append(cs, conds[i])
 			if v, ok := s.ghost[k]; ok {
-				cs = append(cs, conds[i])
 				vs = append(vs, v)
+			} else {
+				vs = append(vs, VInt{fx.ts.Int(0)}) // ghost counters start at zero
 			}
 		}
 		out.ghost[k] = fx.mergeValues(cs, vs, nil)
